@@ -209,7 +209,12 @@ func init() {
 				per := c.N(3, 12)
 				for q := 0; q < per && len(lines) > 0; q++ {
 					b := Pick(r, lines)
+					// the fragment must be followed by a statement of the same body: a
+					// comment or blank line may be all that is left before the body ends
 					if b-1 >= len(hl) || closerRe.MatchString(hl[b-1]) {
+						continue
+					}
+					if k := stmtKind(hl[b-1]); k == "comment" || k == "blank" {
 						continue
 					}
 					f, kind := genFragment(r)
